@@ -14,6 +14,11 @@
 (* Protocol = "wal"    : the repaired code -- the stored digest of a task is cleared before its  *)
 (*                       commands start, the new one written as soon as the task has succeeded;  *)
 (*                       the digest is computed also under --force.                              *)
+(* Protocol = "each"   : a tempting simpler design -- nothing is cleared beforehand, the digest is   *)
+(*                       written after a successful task and cleared after a failed one; safe for *)
+(*                       every crash-free history but not for a kill between the end of a task's  *)
+(*                       commands and the write (TLC exhibits the history): documents WHY the     *)
+(*                       stored digest has to be forgotten before the commands start.             *)
 (* Protocol = "pinned" : the code as first read (named deviation) -- one shared update flag, one *)
 (*                       write at the end, only without --force and when every task succeeded.   *)
 EXTENDS SpokRunEnv, SequencesExt
@@ -105,7 +110,7 @@ HashDecide ==
           THEN inv' = [inv EXCEPT !.pc = "invalidate"] /\ Keep /\ UNCHANGED disk
           ELSE End("error", "other", FALSE, inv) /\ UNCHANGED disk
      ELSE
-     IF Protocol = "wal"
+     IF Protocol \in {"wal", "each"}
      THEN IF ~inv.force /\ HasFiles(t) /\ inv.mem[t] # EmptyD /\ inv.mem[t] = Digest(t)
           THEN inv' = Advance([inv EXCEPT !.reports = Append(@, [t |-> t, skipped |-> TRUE, nres |-> 0])])
                /\ Keep /\ UNCHANGED disk
@@ -123,7 +128,7 @@ HashDecide ==
 Invalidate ==
   /\ inv.pc = "invalidate"
   /\ LET t == Cur IN
-     IF inv.mem[t] # EmptyD
+     IF inv.mem[t] # EmptyD /\ Protocol # "each"
      THEN /\ inv' = [inv EXCEPT !.pc = "exec", !.mem = [@ EXCEPT ![t] = EmptyD]]
           /\ disk' = [st |-> "ok", map |-> [inv.mem EXCEPT ![t] = EmptyD]]
      ELSE inv' = [inv EXCEPT !.pc = "exec"] /\ UNCHANGED disk
@@ -144,9 +149,12 @@ Persist ==
   /\ inv.pc = "persist"
   /\ LET t == Cur
          ok == t \notin SeqRange(inv.failing) IN
-     IF Protocol = "wal" /\ ok /\ HasFiles(t) /\ ~MissingLit(t)
+     IF Protocol \in {"wal", "each"} /\ ok /\ HasFiles(t) /\ ~MissingLit(t)
      THEN /\ inv' = Advance([inv EXCEPT !.mem = [@ EXCEPT ![t] = Digest(t)]])
           /\ disk' = [st |-> "ok", map |-> [inv.mem EXCEPT ![t] = Digest(t)]]
+     ELSE IF Protocol = "each" /\ inv.mem[t] # EmptyD                    \* failed (or nothing to record): forget the old digest now
+     THEN /\ inv' = Advance([inv EXCEPT !.mem = [@ EXCEPT ![t] = EmptyD]])
+          /\ disk' = [st |-> "ok", map |-> [inv.mem EXCEPT ![t] = EmptyD]]
      ELSE inv' = Advance(inv) /\ UNCHANGED disk
   /\ Keep
 
@@ -164,8 +172,8 @@ Crash == /\ Crashes /\ inv # Idle
 \* kill -9 half-way through a write of the cache file: the file is left torn
 CrashInDump ==
   /\ Crashes /\ inv # Idle
-  /\ \/ inv.pc = "invalidate" /\ inv.mem[Cur] # EmptyD
-     \/ inv.pc = "persist" /\ Protocol = "wal" /\ Cur \notin SeqRange(inv.failing) /\ HasFiles(Cur) /\ ~MissingLit(Cur)
+  /\ \/ inv.pc = "invalidate" /\ inv.mem[Cur] # EmptyD /\ Protocol # "each"
+     \/ inv.pc = "persist" /\ Protocol \in {"wal", "each"} /\ Cur \notin SeqRange(inv.failing) /\ HasFiles(Cur) /\ ~MissingLit(Cur)
      \/ inv.pc = "init" /\ disk.st = "none"
      \/ inv.pc = "task" /\ inv.idx > Len(inv.order) /\ Protocol = "pinned" /\ ~inv.force /\ inv.upd /\ AllOk(inv)
   /\ disk' = [st |-> "torn", map |-> NoMap]
